@@ -106,7 +106,7 @@ theorem colorNameToRgb_hex6 (sp : Char → Bool) (hsp : SpOk sp) (c : Text) (h :
     have a2' : (some a == some '+') = false := by simp [a2]
     have b1' : (some b == some 'x') = false := by simp [b1]
     have b2' : (some b == some 'X') = false := by simp [b2]
-    unfold colorNameToRgb pyIntHex
+    unfold colorNameToRgb pyIntHex pyIntHexCore
     rw [hstrip]
     simp only [List.head?_cons, a1', a2', Bool.or_self, Bool.false_eq_true, if_false]
     have hb1 : ([a, b, c, d, e, f] : Text)[1]? = some b := rfl
@@ -190,6 +190,9 @@ theorem lookup_eq_none {κ α} [BEq κ] [LawfulBEq κ] (k : κ) (l : List (κ ×
     simp only [lookup, hne, Bool.false_eq_true, if_false]
     exact ih (fun kv hkv => h kv (by simp [hkv]))
 
+/-- the colour word `default` (accepted by `parse_color`, emits no code) -/
+def kwDefault : Text := "default".toList
+
 /-- decidable side conditions tying the encoder tables (output/vt100.py) to the decoder tables
     (formatted_text/ansi.py); re-decided on the regenerated tables on every run -/
 def encDecOkB (T : Tables) : Bool :=
@@ -200,7 +203,7 @@ def encDecOkB (T : Tables) : Bool :=
     (match lookup n T.bg with
      | some code => lookup code T.decFg == none && lookup code T.decBg == some n
      | none => false) &&
-    !n.isEmpty && !decide (IsHex6 n)) &&
+    !n.isEmpty && !decide (IsHex6 n) && n != kwDefault) &&
   [0, 1, 3, 4, 5, 7, 8, 9, 38, 48].all (fun k => lookup k T.decFg == none && lookup k T.decBg == none) &&
   T.fg.all (fun kv => T.ansiNames.contains kv.1) && T.bg.all (fun kv => T.ansiNames.contains kv.1)
 
@@ -209,6 +212,7 @@ structure EncDecOk (T : Tables) : Prop where
   bg : ∀ n ∈ T.ansiNames, ∃ code, lookup n T.bg = some code ∧ lookup code T.decFg = none ∧
         lookup code T.decBg = some n
   names : ∀ n ∈ T.ansiNames, n ≠ [] ∧ ¬IsHex6 n
+  notDefault : kwDefault ∉ T.ansiNames
   ctl : ∀ k ∈ [0, 1, 3, 4, 5, 7, 8, 9, 38, 48], lookup k T.decFg = none ∧ lookup k T.decBg = none
   fgKeys : ∀ kv ∈ T.fg, kv.1 ∈ T.ansiNames
   bgKeys : ∀ kv ∈ T.bg, kv.1 ∈ T.ansiNames
@@ -217,37 +221,44 @@ theorem encDecOk_of_bool (T : Tables) (h : encDecOkB T = true) : EncDecOk T := b
   unfold encDecOkB at h
   simp only [Bool.and_eq_true, List.all_eq_true] at h
   obtain ⟨⟨⟨h1, h2⟩, h3⟩, h4⟩ := h
-  refine ⟨?_, ?_, ?_, ?_, ?_, ?_⟩
+  refine ⟨?_, ?_, ?_, ?_, ?_, ?_, ?_⟩
   · intro n hn
-    have := (h1 n hn).1.1.1
+    have := (h1 n hn).1.1.1.1
     split at this
     · rename_i code hc; exact ⟨code, hc, by simpa using this⟩
     · cases this
   · intro n hn
-    have := (h1 n hn).1.1.2
+    have := (h1 n hn).1.1.1.2
     split at this
     · rename_i code hc
       simp at this
       exact ⟨code, hc, this.1, this.2⟩
     · cases this
   · intro n hn
-    have ha := (h1 n hn).1.2
-    have hb := (h1 n hn).2
+    have ha := (h1 n hn).1.1.2
+    have hb := (h1 n hn).1.2
     refine ⟨?_, ?_⟩
     · intro he; subst he; simp at ha
     · simpa using hb
+  · intro hn
+    have := (h1 _ hn).2
+    simp at this
   · intro k hk
     have := h2 k hk
     simpa using this
   · intro kv hkv; simpa using h3 kv hkv
   · intro kv hkv; simpa using h4 kv hkv
 
-def ValidColor (T : Tables) (c : Text) : Prop := c = [] ∨ c ∈ T.ansiNames ∨ IsHex6 c
+/-- the colour strings in the domain of the round trip: no colour ('' or 'default'), an ANSI
+    colour name, or six hexadecimal digits -/
+def ValidColor (T : Tables) (c : Text) : Prop :=
+  c = [] ∨ c = kwDefault ∨ c ∈ T.ansiNames ∨ IsHex6 c
 instance (T : Tables) (c : Text) : Decidable (ValidColor T c) := by unfold ValidColor; infer_instance
 
 /-- the colour as the decoder holds it: nothing, the ANSI name, or '#' + lower-case hex -/
 def decColor (T : Tables) (c : Text) : Option Text :=
-  if c = [] then none else if c ∈ T.ansiNames then some c else some ('#' :: lower c)
+  if c = [] ∨ c = kwDefault then none
+  else if c ∈ T.ansiNames then some c else some ('#' :: lower c)
 
 /-- the decoder state that represents the attributes `a` -/
 def sgrOf (T : Tables) (a : Attrs) : Sgr :=
@@ -333,37 +344,57 @@ end Ptk.C19
 namespace Ptk.C19
 open Ptk.Py
 
+theorem default_not_hex6 : ¬IsHex6 kwDefault := by decide
+
+theorem colorNameToRgb_default (sp : Char → Bool) (hsp : SpOk sp) :
+    colorNameToRgb sp kwDefault = none := by
+  have hstrip : stripWs sp kwDefault = kwDefault := by
+    apply stripWs_id
+    intro ch hch
+    have : 33 ≤ ch.toNat ∧ ch.toNat ≤ 126 := by
+      revert ch; decide
+    exact hsp.2 ch this.1 this.2
+  unfold colorNameToRgb pyIntHex
+  rw [hstrip]
+  decide
+
 /-- the 24-bit encoder on a valid colour -/
 theorem colorCodes_d24 (T : Tables) (hT : EncDecOk T) (sp : Char → Bool) (hsp : SpOk sp)
     (fgc bgc fa c : Text) (bg : Bool) (hc : ValidColor T c) :
     colorCodes T sp .d24 fgc bgc fa c bg =
-      (if c = [] then []
+      (if c = [] ∨ c = kwDefault then []
        else if c ∈ T.ansiNames then [(lookup c (if bg then T.bg else T.fg)).getD 0]
        else [if bg then 48 else 38, 2, (hexRgb c).1, (hexRgb c).2.1, (hexRgb c).2.2], fa) := by
+  have keyNone : ∀ (c : Text), c ∉ T.ansiNames → lookup c (if bg then T.bg else T.fg) = none := by
+    intro c hnn
+    apply lookup_eq_none
+    intro kv hkv heq
+    apply hnn
+    rw [← heq]
+    cases bg
+    · exact hT.fgKeys kv (by simpa using hkv)
+    · exact hT.bgKeys kv (by simpa using hkv)
   unfold colorCodes
-  rcases hc with rfl | hn | hh
+  rcases hc with rfl | rfl | hn | hh
   · simp
+  · have hlk := keyNone kwDefault hT.notDefault
+    have hemp : (kwDefault).isEmpty = false := by decide
+    simp [hemp, hlk, colorNameToRgb_default sp hsp]
   · have hne : c ≠ [] := (hT.names c hn).1
+    have hnd : c ≠ kwDefault := fun h => hT.notDefault (h ▸ hn)
     have hemp : c.isEmpty = false := by cases c <;> simp_all
     have : ∃ code, lookup c (if bg then T.bg else T.fg) = some code := by
       cases bg
       · obtain ⟨code, h, _⟩ := hT.fg c hn; exact ⟨code, by simpa using h⟩
       · obtain ⟨code, h, _⟩ := hT.bg c hn; exact ⟨code, by simpa using h⟩
     obtain ⟨code, hcode⟩ := this
-    simp [hemp, hcode, hne, hn]
+    simp [hemp, hcode, hne, hnd, hn]
   · have hne : c ≠ [] := by
       intro h; subst h; simp [IsHex6] at hh
+    have hnd : c ≠ kwDefault := fun h => default_not_hex6 (h ▸ hh)
     have hemp : c.isEmpty = false := by cases c <;> simp_all
     have hnn : c ∉ T.ansiNames := fun hn => (hT.names c hn).2 hh
-    have hlk : lookup c (if bg then T.bg else T.fg) = none := by
-      apply lookup_eq_none
-      intro kv hkv heq
-      apply hnn
-      rw [← heq]
-      cases bg
-      · exact hT.fgKeys kv (by simpa using hkv)
-      · exact hT.bgKeys kv (by simpa using hkv)
-    simp [hemp, hlk, colorNameToRgb_hex6 sp hsp c hh, hne, hnn]
+    simp [hemp, keyNone c hnn, colorNameToRgb_hex6 sp hsp c hh, hne, hnd, hnn]
 
 theorem decColor_of_valid_fg (T : Tables) (hT : EncDecOk T) (sp : Char → Bool) (hsp : SpOk sp)
     (fgc bgc fa c : Text) (hc : ValidColor T c) (st : Sgr) (hst : st.color = none) (rest : List Nat) :
@@ -371,14 +402,16 @@ theorem decColor_of_valid_fg (T : Tables) (hT : EncDecOk T) (sp : Char → Bool)
       sgrLoop T { st with color := decColor T c } rest := by
   rw [colorCodes_d24 T hT sp hsp fgc bgc fa c false hc]
   unfold decColor
-  by_cases h1 : c = []
-  · subst h1; simp [← hst]
+  by_cases h1 : c = [] ∨ c = kwDefault
+  · simp only [h1, if_true, List.nil_append]
+    rw [← hst]
   · by_cases h2 : c ∈ T.ansiNames
     · obtain ⟨code, hcode, hdec⟩ := hT.fg c h2
       simp [h1, h2, hcode, sgr_fgcode T st code c hdec]
     · have hh : IsHex6 c := by
-        rcases hc with h | h | h
-        · exact absurd h h1
+        rcases hc with h | h | h | h
+        · exact absurd (Or.inl h) h1
+        · exact absurd (Or.inr h) h1
         · exact absurd h h2
         · exact h
       simp only [h1, h2, if_false, Bool.false_eq_true, List.cons_append, List.nil_append]
@@ -390,14 +423,16 @@ theorem decColor_of_valid_bg (T : Tables) (hT : EncDecOk T) (sp : Char → Bool)
       sgrLoop T { st with bgcolor := decColor T c } rest := by
   rw [colorCodes_d24 T hT sp hsp fgc bgc fa c true hc]
   unfold decColor
-  by_cases h1 : c = []
-  · subst h1; simp [← hst]
+  by_cases h1 : c = [] ∨ c = kwDefault
+  · simp only [h1, if_true, List.nil_append]
+    rw [← hst]
   · by_cases h2 : c ∈ T.ansiNames
     · obtain ⟨code, hcode, hdec0, hdec⟩ := hT.bg c h2
       simp [h1, h2, hcode, sgr_bgcode T st code c hdec0 hdec]
     · have hh : IsHex6 c := by
-        rcases hc with h | h | h
-        · exact absurd h h1
+        rcases hc with h | h | h | h
+        · exact absurd (Or.inl h) h1
+        · exact absurd (Or.inr h) h1
         · exact absurd h h2
         · exact h
       simp only [h1, h2, if_false, if_true, List.cons_append, List.nil_append]
